@@ -1599,14 +1599,26 @@ fn generate_expression(
             context.get_global_name_full(*v)?,
         )),
         ir::Expression::ConstantVariable(id) => {
-            let def = &context.module.cbuffer_registry[id.0.0 as usize].members[id.1 as usize];
-            let is_hidden = context
-                .name_map
-                .is_hidden_from_root(&def.name, context.current_namespace);
-            ast::Expression::Identifier(scoped_name_to_identifier(ScopedName(
-                Vec::from([def.name.node.clone()]),
-                is_hidden,
-            )))
+            let cbuffer = &context.module.cbuffer_registry[id.0.0 as usize];
+            let def = &cbuffer.members[id.1 as usize];
+            let scoped_name = match cbuffer.namespace {
+                Some(namespace) => {
+                    // The members are declared in the namespace that contains the constant buffer
+                    let ScopedName(mut path, is_hidden) = context.name_map.get_name_qualified(
+                        NameSymbol::Namespace(namespace),
+                        context.current_namespace,
+                    );
+                    path.push(def.name.node.clone());
+                    ScopedName(path, is_hidden)
+                }
+                None => {
+                    let is_hidden = context
+                        .name_map
+                        .is_hidden_from_root(&def.name, context.current_namespace);
+                    ScopedName(Vec::from([def.name.node.clone()]), is_hidden)
+                }
+            };
+            ast::Expression::Identifier(scoped_name_to_identifier(scoped_name))
         }
         ir::Expression::EnumValue(id) => ast::Expression::Identifier(scoped_name_to_identifier(
             context.get_enum_value_name_full(*id)?,
